@@ -115,4 +115,63 @@ def _norm(m):
     return m
 
 
-ALL = {'C15': [_norm(m) for m in C15 if m[0] not in EQUIVALENT]}
+WF = 'pharmpy/workflows/workflow.py'
+EXE = 'pharmpy/workflows/execute.py'
+OPT = 'pharmpy/workflows/dispatchers/local_dask/optimize.py'
+
+C17 = [
+    ('predecessor-keys-sorted', WF,
+     "            input_list.extend(ids[t] for t in self._g.predecessors(task))",
+     "            input_list.extend(sorted(ids[t] for t in self._g.predecessors(task)))", None),
+    ('predecessor-keys-reversed', WF,
+     "            input_list.extend(ids[t] for t in self._g.predecessors(task))",
+     "            input_list.extend(reversed([ids[t] for t in self._g.predecessors(task)]))", None),
+    ('static-inputs-after-predecessors', WF,
+     "            input_list = list(task.task_input)\n            input_list.extend(ids[t] for t in self._g.predecessors(task))",
+     "            input_list = [ids[t] for t in self._g.predecessors(task)]\n            input_list.extend(task.task_input)", None),
+    ('keys-without-uuid', WF,
+     "            ids[task] = f'{task.name}-{uuid.uuid4()}'",
+     "            ids[task] = f'{task.name}'", None),
+    ('dfs-tree-from-first-source-only', WF,
+     "        for task in nx.dfs_tree(self._g):",
+     "        for task in nx.dfs_tree(self._g, self.input_tasks[0]):", None),
+    ('replace-task-on-copy', WF,
+     "        nx.relabel_nodes(self._g, mapping, copy=False)",
+     "        nx.relabel_nodes(self._g, mapping, copy=True)", None),
+    ('nn-insertion-zips-reversed', WF,
+     "            for inp, outp in zip(input_tasks, output_tasks):",
+     "            for inp, outp in zip(input_tasks, reversed(output_tasks)):", None),
+    ('one-to-n-connects-first-input-only', WF,
+     "            for inp in input_tasks:\n                self._g.add_edge(output_tasks[0], inp)",
+     "            for inp in input_tasks[:1]:\n                self._g.add_edge(output_tasks[0], inp)", None),
+    ('n-to-one-connects-last-output-only', WF,
+     "            for outp in output_tasks:\n                self._g.add_edge(outp, input_tasks[0])",
+     "            for outp in output_tasks[-1:]:\n                self._g.add_edge(outp, input_tasks[0])", None),
+    ('context-appended-not-prepended', WF,
+     "            new_task = task.replace(task_input=(context, *task.task_input))",
+     "            new_task = task.replace(task_input=(*task.task_input, context))", None),
+    ('execute-drops-non-model-static-inputs', EXE,
+     "            else:\n                new_inp.append(inp)\n",
+     "            elif not isinstance(inp, (tuple, float)):\n                new_inp.append(inp)\n", None),
+    ('builder-plus-loses-other-edges', WF,
+     "        wb_new = WorkflowBuilder()\n        wb_new._g = nx.compose(self._g, other._g)",
+     "        wb_new = WorkflowBuilder()\n        wb_new._g = self._g.copy()\n        wb_new._g.add_nodes_from(other._g.nodes)", None),
+    ('multi-sink-takes-first', WF,
+     "        if len(self.output_tasks) == 1:\n            ids[self.output_tasks[0]] = 'results'",
+     "        if len(self.output_tasks) >= 1:\n            ids[self.output_tasks[0]] = 'results'", None),
+    ('scatter-flattens-nested-list', OPT,
+     "        return list(map(lambda c: _scatter_computation(Future, client, c), computation))",
+     "        return list(map(lambda c: _scatter_value(Future, client, c), computation[:1]))", None),
+    ('scatter-tuple-drops-last-arg', OPT,
+     "                *map(lambda c: _scatter_computation(Future, client, c), computation[1:]),",
+     "                *map(lambda c: _scatter_computation(Future, client, c), computation[1:3]),", None),
+    ('nm-insertion-accepted-silently', WF,
+     "            raise ValueError('Having N:M connections between workflows is currently not supported')",
+     "            pass", None),
+    ('add-task-single-predecessor-ignored', WF,
+     "            if not isinstance(predecessors, list):\n                self._g.add_edge(predecessors, task)",
+     "            if not isinstance(predecessors, list):\n                pass", None),
+]
+
+ALL = {'C15': [_norm(m) for m in C15 if m[0] not in EQUIVALENT],
+       'C17': [_norm(m) for m in C17]}
